@@ -415,7 +415,9 @@ class SyncObj(object):
                    getattr(getattr(self, m), 'replicated', False) and \
                    m != getattr(getattr(self, m), 'origName')]
 
-        self.__currentVersionFuncNames = {}
+        # The table is built aside and published with one assignment at the end: a caller thread that
+        # resolves a method name in the meantime sees the previous, complete table, never a partly filled one.
+        currentVersionFuncNames = {}
 
         funcVersions = collections.defaultdict(set)
         for method in methods:
@@ -438,7 +440,9 @@ class SyncObj(object):
                 if v > newVersion:
                     break
                 realFuncName = funcName[1] if isinstance(funcName, tuple) else funcName
-                self.__currentVersionFuncNames[funcName] = realFuncName + '_v' + str(v)
+                currentVersionFuncNames[funcName] = realFuncName + '_v' + str(v)
+
+        self.__currentVersionFuncNames = currentVersionFuncNames
 
     def _getFuncName(self, funcName):
         return self.__currentVersionFuncNames[funcName]
